@@ -87,3 +87,36 @@ func TestC17_InvalidNickRepeat(t *testing.T) {
 		t.Fatalf("NICK lines: %q: the refused nickname is proposed again", got)
 	}
 }
+
+// A NICKLEN / MAXNICKLEN announced in 005 does not change what the client asks for: a refused
+// nickname of exactly NICKLEN bytes is followed by that nickname plus "_", not by itself
+// (seeded regression C17-4), and a callback's value is sent whole.
+func TestC17_NickSentVerbatimAtNicklen(t *testing.T) {
+	s := drive.Start(drive.BaseConfig())
+	defer s.Stop()
+	lines := sentLines(s, func() {
+		s.Feed(":srv 001 me :Welcome")
+		s.Feed(":srv 005 me NICKLEN=9 MAXNICKLEN=9 :are supported by this server")
+		if v, _ := s.C.GetServerOption("NICKLEN"); v != "9" {
+			t.Fatalf("NICKLEN not recorded: %q", v)
+		}
+		s.C.Cmd.Nick("abcdefghi")
+		s.Feed(":srv 433 me abcdefghi :Nickname is already in use")
+		s.Feed(":srv 433 me abcdefghi_ :Nickname is already in use")
+	})
+	if got := nickLines(lines); !reflect.DeepEqual(got, []string{"abcdefghi", "abcdefghi_", "abcdefghi__"}) {
+		t.Fatalf("NICK lines: %q", got)
+	}
+
+	cfg := drive.BaseConfig()
+	cfg.HandleNickCollide = func(string) string { return "LongAlternative_Nick" }
+	s2 := drive.Start(cfg)
+	defer s2.Stop()
+	lines = sentLines(s2, func() {
+		s2.Feed(":srv 005 me NICKLEN=9 :are supported by this server")
+		s2.Feed(":srv 433 * me :Nickname is already in use")
+	})
+	if got := nickLines(lines); !reflect.DeepEqual(got, []string{"LongAlternative_Nick"}) {
+		t.Fatalf("NICK lines with callback: %q", got)
+	}
+}
